@@ -112,8 +112,8 @@ prop("C07", quick={"runs": 16000}, thorough={"runs": 100000000, "budget_s": 600}
             "C07.STUCK an operation of the sequence never returns (scheduler state, not a timeout)", "C07.PANIC an operation panicked"],
      probes=["read:nil", "read:notfound", "read:expired", "delete:nil", "delete:notfound", "expireAll", "deleteAll", "walk", "walkErr", "dumpErr", "len", "load", "store"])
 prop("C10", quick={"runs": 16000}, thorough={"runs": 100000000, "budget_s": 600},
-     rule=BE_RULE + "Root-driven (no concurrency): 1-6 writes with config TTL {default, unlimited, 1ns..10y, negative -2ns..-1y}, context TTL {none, 0, +-1ns..+-10y}, "
-     "ExpirationJitter {disabled, default, values in (0,1]}, jitter draw {0, 0.5, 1-2^-53, PRNG}; after each write Walk gives ExpireAt, the clock "
+     rule=BE_RULE + "Root-driven (no concurrency): 1-6 writes (Write, or Store which has no context) with config TTL {default, unlimited, 1ns..10y, negative -2ns..-1y}, context TTL {none, 0, +-1ns..+-10y}, "
+     "ExpirationJitter {disabled, default, values in (0,1], 1.5, 2}, jitter draw {0, 0.5, 1-2^-53, PRNG}; after each write Walk gives ExpireAt, the clock "
      "is moved to ExpireAt-1ns and ExpireAt+1ns. Non-trivial: at least one write; distinct = distinct scenarios.",
      rules=["C10.R1 ExpireAt within [t+T-|T|J/2, t+T+|T|J/2] (exactly t+T without jitter)", "C10.R2 never expires with UnlimitedTTL and no context TTL",
             "C10.R3 fresh 1ns before, ErrExpired 1ns after the reported instant", "C10.R4 ErrExpired.ExpiredAt == Walk's ExpireAt"],
